@@ -430,6 +430,37 @@ func (c *corpus) genQuery() querySpec {
 	return q
 }
 
+// directed queries: one numeric filter on the primary attribute at the places where the scan
+// logic has special cases (bounds of the range: auto-match / unreachable; a value that is stored:
+// strict vs non-strict; seek position), the attribute requested, sometimes a second filter
+func (c *corpus) genDirected() querySpec {
+	k := pick([]string{"N", "N", "K", "A", object.FilterPayloadSize, object.FilterCreationEpoch})
+	op := 5 + rnd.intn(4)
+	var v string
+	switch vals := c.valuesOf(k); {
+	case rnd.chance(45):
+		v = pick([]string{max256, "-" + max256})
+	case len(vals) > 0 && rnd.chance(70):
+		v = string(pick(vals))
+		if strings.ContainsAny(v, "\x00") || len(v) > 80 {
+			v = "5"
+		}
+	default:
+		v = pick(intVals)
+	}
+	q := querySpec{Filters: []filterSpec{{K: k, Op: op, V: v}}, Attrs: []string{k}}
+	if rnd.chance(30) {
+		q.Filters = append(q.Filters, c.genFilter(pick([]string{"A", "AB", "K", object.FilterOwnerID, object.FilterPhysical})))
+		if q.Filters[1].K == k {
+			q.Filters = q.Filters[:1]
+		}
+	}
+	if rnd.chance(30) {
+		q.Attrs = append(q.Attrs, pick(sysKeys()))
+	}
+	return q
+}
+
 func (q querySpec) sdk() object.SearchFilters {
 	var fs object.SearchFilters
 	for _, f := range q.Filters {
@@ -609,6 +640,7 @@ func gen(nCorpora, nQueries int) {
 		for i := 0; i < nQueries; i++ {
 			qs = append(qs, c.genQuery())
 		}
+		qs = append(qs, c.genDirected(), c.genDirected())
 		et, dt := tables(c, qs)
 		co := map[string]any{"k": "corpus", "id": ci, "enc": et, "dec": dt}
 		var objs []map[string]any
